@@ -1,4 +1,5 @@
 #!/bin/bash
+trap "git -C /repo checkout -- . 2>/dev/null" EXIT INT TERM
 # usage: tools/trymut.sh <prop> <file-in-repo> <sed-expression>   -- applies a mutation to /repo, runs the check, reverts
 prop=$1; f=$2; expr=$3
 cd /repo && cp "$f" /tmp/_mut_backup && sed -i "$expr" "$f"
